@@ -265,7 +265,9 @@ impl ParamCurveArclen for QuadBez {
         }
         let b = 2.0 * d2.dot(d1);
 
-        let sabc = (a + b + c).sqrt();
+        // a + b + c is |p2 - p1|^2; computing it directly avoids a tiny negative value (and a
+        // NaN from the square root) caused by cancellation when p1 and p2 nearly coincide.
+        let sabc = (self.p2 - self.p1).hypot();
         let a2 = a.powf(-0.5);
         let a32 = a2.powi(3);
         let c2 = 2.0 * c.sqrt();
